@@ -653,9 +653,10 @@ class Valid:
                 mems.append((m, 'int', 'ptr'))
             elif k == 5:
                 a, b = self.fresh('m'), self.fresh('m')
-                lines.append(f'{self.pick(["struct", "union"])} {{ int {a}; {self.itype()} {b}; }};')
+                su = self.pick(['struct', 'union'])
+                lines.append(f'{su} {{ int {a}; {self.itype()} {b}; }};')
                 mems.append((a, 'int', 'int'))
-                mems.append((b, 'int', 'int'))
+                mems.append((b, 'int', 'int' if su == 'struct' else 'union2'))   # an anonymous union takes ONE initializer
             elif k == 6:
                 lines.append(f'double {m};')
                 mems.append((m, 'double', 'flt'))
@@ -682,11 +683,13 @@ class Valid:
         for (m, ty, k) in mems:
             if tag.startswith('union') and not first:
                 break
+            if k == 'union2':
+                continue
             if self.chance(0.25) and not first:
                 need_des = True
                 continue
             des = need_des or self.chance(0.4)
-            if k in ('int', 'bits'):
+            if k in ('int', 'bits', 'union2'):
                 v = self.const(k == 'bits')
             elif k == 'flt':
                 v = self.pick(['1.5', '0.0', '2', '-1e3', '1.0f'])
@@ -805,7 +808,7 @@ class Valid:
             return f'({e()} {self.pick(["/", "%"])} ({e()} | 1))'
         if k == 14 and self.structs:
             t = self.pick(self.structs)
-            ints = [m for m in t[1] if m[2] == 'int']
+            ints = [m for m in t[1] if m[2] in ('int', 'union2')]
             if ints:
                 return f'(({t[0]}){self.init_for(t)}).{ints[0][0]}'
         if k == 15 and env['ptrs']:
@@ -815,7 +818,7 @@ class Valid:
     def member(self, gs, d=0):
         v, t = gs
         m, ty, k = self.pick(t[1])
-        if k in ('int', 'bits'):
+        if k in ('int', 'bits', 'union2'):
             return f'{v}.{m}'
         if k == 'arr':
             return f'{v}.{m}[{self.r.randrange(ty)}]'
@@ -882,7 +885,8 @@ class Valid:
             t = self.pick(self.structs)
             return f'{t[0]} {v} = {self.init_for(t)};'
         if k == 2 and env['ints']:
-            s = f'int *{v} = &{self.pick(env["ints"])};'
+            tgt = self.pick(env['ints'])
+            s = f'__typeof__({tgt}) *{v} = &{tgt};'
             env['ptrs'].append(v)
             return s
         if k == 3:
